@@ -75,7 +75,7 @@ class Recorder:
         if self.viol_counts[mechanism] <= MAX_WITNESS_PER_MECH:
             self.violations.append({
                 'property': self.prop, 'mechanism': mechanism, 'what': what,
-                'case': canon.dump(case),
+                'case': canon.dump_case(case),
                 'observed': canon.brief(observed, 2000),
                 'expected': canon.brief(expected, 2000),
             })
